@@ -461,6 +461,14 @@ class LayoutRules:
                                          '%s: read() consumes %r bytes, write() re-emits %r bytes' % (fmt_path(a.path or ()), a.width, b.width),
                                          self.site(b)))
                         break
+                    # what read() stored must be what it consumed: a member that the decoder changes after reading it (masking flag bits,
+                    # clamping a count) re-encodes to other bytes than the image held
+                    if a.src == 'member' and isinstance(a.extra, dict) and a.extra.get('scalar') and a.path not in recomputed:
+                        idx_a = [i_ for i_, x_ in enumerate(R.items) if x_ is a]
+                        later = [g_ for g_ in R.assigned if g_[0] == a.path and idx_a and g_[5] > idx_a[0]]
+                        if later:
+                            problems.append(('L2r', 'overwritten:%s@%s' % (fmt_path(a.path), short(a.fn)), '%s: read() changes the member (line %s) after taking it from the image: '
+                                             'the bytes of the image are not what write() re-emits' % (fmt_path(a.path), later[0][2]), self.site(a)))
                     if b.value is not None and a.path in R.menv and b.value != R.menv[a.path] and a.path not in recomputed:
                         problems.append(('L2r', 'value:' + fmt_path(a.path), '%s: read %r, re-emitted %r' % (fmt_path(a.path), R.menv[a.path], b.value), self.site(b)))
                 else:
@@ -475,6 +483,8 @@ class LayoutRules:
             for (rule, key, what, s) in problems:
                 # the reader path is part of the identity of a finding: the same symptom under another input condition is another finding
                 k = '%s|%s' % (sc, key) + ('|when ' + gk if R.guards else '')
+                if key.startswith('overwritten:'):
+                    k = key     # a statement of the (shared) decoder function: one finding, not one per derived class
                 if (rule, k) in seen or (rule, k) in self._reported:
                     continue
                 seen.add((rule, k))
